@@ -132,9 +132,14 @@ class RunTaskExecutable(Operation):
             # Send SIGTERM to the entire process group (i.e., the subprocess
             # and its child processes).
             if process is not None:
-                group_id = os.getpgid(process.pid)
-                if group_id >= 0:
-                    os.killpg(group_id, signal.SIGTERM)
+                try:
+                    group_id = os.getpgid(process.pid)
+                    if group_id >= 0:
+                        os.killpg(group_id, signal.SIGTERM)
+                except ProcessLookupError:
+                    # The process has already exited (and was reaped by our
+                    # SIGCHLD handler), so there is nothing to terminate.
+                    pass
             if self._record_output:
                 ctx.tee_processor.shutdown()
             raise
